@@ -564,7 +564,9 @@ class ParseCheckStatistics(Contract):
     raises = (TypeError, OtherException)
     callback_raises = [TypeError, OtherException]
     sym_globals = {f"{STATS}:Check": T.Ref(None, strict=True, **{n: ctor(n, raises=True) for n in (GE, LE, ISIN)})}
-    CASES = ["none", "empty", "bounds", "isin", "keyword-form", "keyword-form+options", "options-only"]
+    # isin-list-of-n: the statistic is a python LIST (what infer_*_statistics writes for the categories of a categorical, what the YAML /
+    # JSON readers hand over): it is ONE argument - the allowed values - however many elements it has (a single category included)
+    CASES = ["none", "empty", "bounds", "isin", "isin-list-of-1", "isin-list-of-2", "keyword-form", "keyword-form+options", "options-only"]
     check_frame = False
 
     def setup(self, I):
@@ -577,6 +579,8 @@ class ParseCheckStatistics(Contract):
         stats = {"none": None, "empty": DictObj(),
                  "bounds": DictObj({GE: core.sym_real("lo"), LE: core.sym_real("hi")}),
                  "isin": DictObj({ISIN: PI.CatValues(lambda x: core.sym_bool("mem"), "categories")}),
+                 "isin-list-of-1": DictObj({ISIN: ListObj([v("category0")])}),
+                 "isin-list-of-2": DictObj({ISIN: ListObj([v("category0"), v("category1")])}),
                  "keyword-form": DictObj({GE: DictObj({"min_value": v("lo")}), LE: DictObj({"max_value": v("hi")})}),
                  "keyword-form+options": DictObj({LE: DictObj({"max_value": v("hi"), "options": DictObj(OPTIONS)})}),
                  "options-only": DictObj({GE: DictObj({"options": DictObj(OPTIONS)})})}[case]
@@ -630,6 +634,28 @@ class ParseCheckStatistics(Contract):
 
     def on_raise(self, exc, old, check_stats):
         return {"only_a_constructor_error_escapes": exc.attrs.get("__from_callback__") is not None}
+
+    def concretize(self, rec):
+        def thunk():
+            """a categorical with ONE category (and with two): the inferred schema accepts the data it was inferred from"""
+            import warnings
+
+            import pandas as pd
+            import pandera as pa
+
+            warnings.simplefilter("ignore")
+            obs, bad = {}, False
+            for name, data in (("one category 'active'", pd.Categorical(["active", "active"])), ("one integer category 5", pd.Categorical([5, 5])),
+                               ("two categories", pd.Categorical(["ab", "cd"]))):
+                df = pd.DataFrame({"c": data})
+                try:
+                    pa.infer_schema(df).validate(df)
+                except Exception as e:  # noqa: BLE001
+                    bad = True
+                    obs[f"infer_schema(D).validate(D), D.c categorical with {name}"] = f"raised {type(e).__name__}: {e}"[:200]
+            return bad, obs or "list-valued statistics are one argument of their check"
+
+        return thunk
 
     def apply(self, I, args, kwargs):
         (stats,) = args
